@@ -787,4 +787,134 @@ theorem cfdiv_r_2exp_eq (dir : Int) (hdir : dir = -1 ∨ dir = 1) (s : Store) (w
         have hs' : ¬ (dir = -1 ∧ sz < 0 ∨ dir = 1 ∧ sz ≥ 0) := fun h => hs (hsd.mpr h)
         rcases hdir with rfl | rfl <;> simp only [Int.reduceNeg, Int.reduceEq, true_and, false_and, or_false, false_or, if_true, if_false] at hs' ⊢ <;> split_ifs <;> omega
 
+/-! ### divisibility -/
+
+theorem ctz_spec : ∀ (d : Nat), d ≠ 0 → 2 ^ ctz d ∣ d ∧ (d / 2 ^ ctz d) % 2 = 1 := by
+  intro d
+  induction d using Nat.strongRecOn with
+  | _ d ih =>
+    intro hd
+    unfold ctz
+    simp only [hd, dite_false]
+    split
+    · rename_i h1; simp [h1]
+    · rename_i h1
+      have h2 : d % 2 = 0 := by omega
+      have hd2 : d / 2 ≠ 0 := by omega
+      obtain ⟨i1, i2⟩ := ih (d / 2) (by omega) hd2
+      have e : 2 ^ (1 + ctz (d / 2)) = 2 * 2 ^ ctz (d / 2) := by rw [Nat.pow_add]
+      rw [e]
+      constructor
+      · have : d = 2 * (d / 2) := by omega
+        rw [this]; exact Nat.mul_dvd_mul_left 2 (by rw [← this]; exact i1)
+      · rw [← Nat.div_div_eq_div_mul]; exact i2
+
+theorem coprime_two_pow_odd (t n : Nat) (h : n % 2 = 1) : Nat.Coprime (2 ^ t) n := by
+  apply Nat.Coprime.pow_left
+  unfold Nat.Coprime
+  rw [Nat.gcd_rec, h]; simp
+
+theorem mod_eq_zero_beq (a d : Nat) : (a % d == 0) = true ↔ d ∣ a := by
+  rw [beq_iff_eq, Nat.dvd_iff_mod_eq_zero]
+
+theorem divisible_p_iff' (a d : Int) : divisible_p a d = true ↔ d ∣ a := by
+  unfold divisible_p mpn_divisible_p
+  simp only [siz_eq_zero]
+  by_cases hd : d = 0
+  · subst hd; simp
+  · simp only [hd, if_false, mod_eq_zero_beq, Int.natAbs_dvd_natAbs]
+
+theorem divisible_ui_p_iff' (thr : Nat) (a : Int) (d : Nat) (hdB : d < B) :
+    divisible_ui_p thr a d = true ↔ (d : Int) ∣ a := by
+  unfold divisible_ui_p mpn_mod_1
+  simp only [siz_eq_zero]
+  have hcast : ∀ k : Nat, (k : Int) ∣ a ↔ k ∣ a.natAbs := fun k => by
+    rw [← Int.natAbs_dvd_natAbs]; simp
+  by_cases hd : d = 0
+  · subst hd; simp
+  · simp only [hd, if_false]
+    by_cases ha : a = 0
+    · subst ha; simp
+    · simp only [ha, if_false, hcast]
+      split
+      · exact mod_eq_zero_beq _ _
+      · split
+        · obtain ⟨c1, c2⟩ := ctz_spec d hd
+          have ht : 2 ^ ctz d ∣ B := by
+            have hle : 2 ^ ctz d ≤ d := Nat.le_of_dvd (by omega) c1
+            have : ctz d < 64 := by
+              by_contra hge
+              have : 2 ^ 64 ≤ 2 ^ ctz d := Nat.pow_le_pow_right (by decide) (by omega)
+              unfold B at hdB; omega
+            unfold B; exact Nat.pow_dvd_pow 2 (by omega)
+          have hlz : lowZerosMod d = 2 ^ ctz d := by unfold lowZerosMod; simp [hd]
+          rw [hlz, Nat.mod_mod_of_dvd _ ht]
+          have hpos : 0 < 2 ^ ctz d := Nat.pow_pos (by decide)
+          have hcop : ∀ n, n % 2 = 1 → Nat.Coprime (2 ^ ctz d) n := fun n hn => coprime_two_pow_odd _ n hn
+          generalize 2 ^ ctz d = p at *
+          obtain ⟨d', hd'⟩ := c1
+          have hdd : d / p = d' := by rw [hd']; exact Nat.mul_div_cancel_left _ hpos
+          rw [hdd] at c2 ⊢
+          split
+          · rename_i hne
+            constructor
+            · intro h; exact absurd h (by simp)
+            · intro h
+              have : p ∣ a.natAbs := Nat.dvd_trans (Dvd.intro _ hd'.symm) h
+              exact absurd (Nat.dvd_iff_mod_eq_zero.mp this) hne
+          · rename_i hne
+            simp only [ne_eq, not_not] at hne
+            rw [mod_eq_zero_beq]
+            constructor
+            · intro h
+              rw [hd']
+              exact Nat.Coprime.mul_dvd_of_dvd_of_dvd (hcop _ c2) (Nat.dvd_iff_mod_eq_zero.mpr hne) h
+            · intro h; exact Nat.dvd_trans (Dvd.intro_left _ hd'.symm) h
+        · exact mod_eq_zero_beq _ _
+
+theorem divisible_2exp_p_iff' (a : Int) (d : Nat) :
+    divisible_2exp_p a d = true ↔ ((2 ^ d : Nat) : Int) ∣ a := by
+  have hcast : ((2 ^ d : Nat) : Int) ∣ a ↔ 2 ^ d ∣ a.natAbs := by
+    rw [← Int.natAbs_dvd_natAbs]; simp
+  rw [hcast, Nat.dvd_iff_mod_eq_zero]
+  unfold divisible_2exp_p
+  simp only [siz_natAbs, limb_mod]
+  split
+  · rename_i h
+    have hlt := lt_two_pow_of_size h
+    rw [Nat.mod_eq_of_lt hlt]; simp [sizeNat_eq_zero]
+  · have hl := low_bits_ne_zero_iff a.natAbs d
+    split
+    · rename_i h1
+      constructor
+      · intro h; exact absurd h (by simp)
+      · intro h; exact absurd h (hl.mp (Or.inl h1))
+    · rename_i h1
+      simp only [ne_eq, not_not] at h1
+      simp only [decide_eq_true_eq]
+      constructor
+      · intro h; by_contra hne; rcases hl.mpr hne with h2 | h2
+        · exact h2 h1
+        · exact h2 h
+      · intro h; by_contra hne; exact (hl.mp (Or.inr hne)) h
+
+theorem divexact_eq (s : Store) (q n d : Nat) (hd : s d ≠ 0) :
+    divexact s q n d = .ok (s.set q (Int.tdiv (s n) (s d))) := by
+  have hdl := siz_natAbs_ne_zero hd
+  unfold divexact mpn_divexact
+  simp only [hdl, if_false]
+  split
+  · rename_i h
+    have hlt : (s n).natAbs < (s d).natAbs := lt_of_sizeNat_lt (by rw [siz_natAbs, siz_natAbs] at h; exact h)
+    rw [(tdiv_tmod_of_natAbs_lt hlt).1]
+  · simp only [tdiv_sign_mag (s n) (s d), sameSign_siz]
+
+theorem divexact_ui_eq (s : Store) (q n : Nat) (u : Nat) (hu : u ≠ 0) :
+    divexact_ui s q n u = .ok (s.set q (Int.tdiv (s n) u)) := by
+  unfold divexact_ui mpn_divexact
+  simp only [hu, if_false, siz_eq_zero]
+  split
+  · rename_i h; rw [h]; simp
+  · simp only [tdiv_natCast, ge_iff_le, siz_nonneg_iff]
+
 end Mpir.DivZ
